@@ -18,7 +18,7 @@ EXTRACTOR = os.path.join(VERIF, 'extractor', 'target', 'release', 'extractor')
 FLAVOURS = {
     # crate features -> cfg(feature = ..) names that are on
     'default': {'features': ['default', 'async-std', 'futures', 'mmap', 'memmap2', 'libc'], 'cfg_flags': ['unix', 'target_os=linux']},
-    'tokio': {'features': ['tokio-runtime', 'tokio', 'tokio-stream', 'futures', 'mmap', 'memmap2', 'libc'], 'cfg_flags': ['unix', 'target_os=linux']},
+    'tokio': {'features': ['tokio-runtime', 'tokio', 'tokio-stream', 'futures', 'mmap', 'memmap2', 'libc', 'link_to'], 'cfg_flags': ['unix', 'target_os=linux']},
     'nommap': {'features': [], 'cfg_flags': ['unix', 'target_os=linux']},
     'linkto': {'features': ['default', 'async-std', 'futures', 'mmap', 'memmap2', 'libc', 'link_to'], 'cfg_flags': ['unix', 'target_os=linux']},
 }
@@ -137,6 +137,24 @@ MOD_PRELUDE = ('#[allow(unused_imports)] use vstd::prelude::*;\n'
                'broadcast use {crate::spec::group_spec_axioms, crate::shims::ssri::group_ssri_axioms};\n')
 
 
+def flavour_regions(text, flavour):
+    """`// @FLAVOUR a b` ... `// @ENDFLAVOUR` regions of a shim / overlay text are kept only for the
+    flavours named (`!a` = every flavour but a)"""
+    out, keep = [], True
+    for ln in text.split('\n'):
+        t = ln.strip()
+        if t.startswith('// @FLAVOUR '):
+            names = t[len('// @FLAVOUR '):].split()
+            keep = any((n[1:] != flavour) if n.startswith('!') else (n == flavour) for n in names)
+            continue
+        if t.startswith('// @ENDFLAVOUR'):
+            keep = True
+            continue
+        if keep:
+            out.append(ln)
+    return '\n'.join(out)
+
+
 def assemble(flavour, cfg, files, active_units, ext_out, auto_weak=()):
     """returns (text, meta) — meta maps generated line ranges to units and obligation labels"""
     parts = []
@@ -165,7 +183,7 @@ def assemble(flavour, cfg, files, active_units, ext_out, auto_weak=()):
             parts.append(entry['open'] + '\n')
         for p in entry.get('files', []):
             parts.append(f'// ---- shims/{p}\n')
-            parts.append(open(os.path.join(VERIF, 'shims', p)).read())
+            parts.append(flavour_regions(open(os.path.join(VERIF, 'shims', p)).read(), flavour))
         if entry.get('close'):
             parts.append(entry['close'] + '\n')
     if auto_weak:
@@ -279,12 +297,14 @@ def assemble(flavour, cfg, files, active_units, ext_out, auto_weak=()):
     return text, meta
 
 
-def run_extractor(flavour, cfg, files, units, bare=(), opaque=()):
+def run_extractor(flavour, cfg, files, units, bare=(), opaque=(), vacuity=False):
     os.makedirs(BUILD, exist_ok=True)
     ecfg, active = build_extractor_config(flavour, cfg, files, units, bare)
     ecfg['opaque_auto'] = list(opaque)
-    cpath = os.path.join(BUILD, f'extract_{flavour}.cfg.json')
-    opath = os.path.join(BUILD, f'extract_{flavour}.out.json')
+    ecfg['vacuity_probe'] = bool(vacuity)
+    tag = flavour + ('_vac' if vacuity else '')
+    cpath = os.path.join(BUILD, f'extract_{tag}.cfg.json')
+    opath = os.path.join(BUILD, f'extract_{tag}.out.json')
     json.dump(ecfg, open(cpath, 'w'), indent=1)
     if os.path.exists(opath):
         os.remove(opath)
@@ -555,3 +575,38 @@ def full_run(flavour, cfg, files, units, rlimit=40, seed=0):
         bare.add(cand[0])
     ext['opaque_auto'] = sorted(opaque)
     return ext, active, text, meta, gen, res, weak, sorted(bare)
+
+
+def vacuity_run(flavour, cfg, files, units, bare, opaque, weak, rlimit=40):
+    """second Verus run on the same extraction with `assert(false)` woven in as the first
+    statement of every verified unit body: each of these assertions must FAIL.  One that is
+    proved means the unit's precondition (with the lemmas and axioms in scope) is contradictory,
+    i.e. everything about that unit would be proved vacuously.
+    -> (number of probes, ids of units whose probe was PROVED)"""
+    ext, active = run_extractor(flavour, cfg, files, units, bare=tuple(bare), opaque=tuple(opaque), vacuity=True)
+    text, meta = assemble(flavour, cfg, files, active, ext, auto_weak=weak)
+    gen = os.path.join(BUILD, f'gen_{flavour}_vac.rs')
+    open(gen, 'w').write(text)
+    res = run_verus(gen, rlimit=rlimit)
+    js = res['json']
+    if js is None or 'verification-results' not in js or js['verification-results'].get('encountered-vir-error'):
+        raise Undecided('vacuity probe run: verus rejected the generated file')
+    lines = text.split('\n')
+    probe_lines = [i for i, ln in enumerate(lines, start=1) if '// @VACUITY' in ln]
+    failed_lines = set()
+    for d in res['diags']:
+        if d.get('level') != 'error' or 'assertion failed' not in (d.get('message') or ''):
+            continue
+        for sp in d.get('spans', []):
+            if sp.get('file_name', '').endswith(os.path.basename(gen)):
+                failed_lines.add(sp['line_start'])
+    vacuous = []
+    for pl in probe_lines:
+        if pl in failed_lines:
+            continue
+        best = None
+        for u in meta['units']:
+            if u['start'] <= pl <= (u['end'] or 10**9) and (best is None or u['start'] >= best['start']):
+                best = u
+        vacuous.append(best['id'] if best else f'line {pl}')
+    return len(probe_lines), vacuous
